@@ -24,8 +24,10 @@
 (*                 node DID checks (bootstrap: + registerStream)           *)
 (*   CliAuth       openOutboundStream: authenticate, setPeer,              *)
 (*                 registerStream, notify Connected                        *)
-(*   CliClose      stream ended: notify Disconnected, closeError ->        *)
-(*                 Backoff() | Reset(random 1..5 s), remove connection     *)
+(*   CliGone       goroutine of openOutboundStreams: stream context done,  *)
+(*                 notify Disconnected, connection.disconnect()            *)
+(*   CliClose      connect() epilogue: closeError -> Backoff() |           *)
+(*                 Reset(random 1..5 s), remove connection                 *)
 (*   SrvDown       handleInboundStream after waitUntilDisconnected:        *)
 (*                 notify Disconnected, connections.remove                 *)
 (*   Reap          the handler goroutine is gone (book keeping)            *)
@@ -56,6 +58,8 @@ CONSTANTS
     MaxFeed, MaxRemove, MaxDialFail, MaxCancel, MaxAuthFail, MaxDrop, MaxRestart,   \* environment budgets
     Soft, Hard, MaxMsgs, MaxCredit,   \* outbox: soft limit (100), hard limit (5000), messages offered, transport window
     NoSelfGuard,   \* TRUE = code: connectToDID skips the node's own DID
+    WatcherPrompt, \* TRUE = timing assumption: the goroutine that reports Disconnected for an outbound stream has run before
+                   \*        the contact is dialled again (>= 1 s later).  FALSE = no assumption (Alternation can then be violated)
     Hist
 CONSTANTS DidOf(_), BootAddr(_)
 
@@ -90,7 +94,8 @@ STag(m, k) == "s/" \o m \o "/" \o k
 
 NoContact == [on |-> FALSE, to |-> None, calling |-> FALSE, val |-> 0, rem |-> 0, hasP |-> FALSE, prem |-> 0]
 NoSrv == [spc |-> "none", sst |-> None, dead |-> FALSE, srv |-> None, sp |-> ""]
-NoCall == [cpc |-> "idle", det |-> FALSE, dval |-> 0, to |-> None] @@ NoSrv
+NoKey == [pid |-> "", did |-> None, addr |-> None]
+NoCall == [cpc |-> "idle", det |-> FALSE, dval |-> 0, to |-> None, w |-> "none", wk |-> NoKey] @@ NoSrv
 NoBox == [q |-> <<>>, hand |-> 0, credit |-> 0, open |-> TRUE, next |-> 1, got |-> <<>>]
 NoP == [set |-> FALSE, rem |-> 0, val |-> 0]
 ZeroBudget == [feed |-> 0, remove |-> 0, dialfail |-> 0, cancel |-> 0, authfail |-> 0, drop |-> 0, restart |-> 0]
@@ -189,7 +194,8 @@ Remove(m, k) ==
     /\ UNCHANGED <<store, conns, inc, obs, due, bad, box>>
 
 Advance ==
-    /\ \E m \in Nodes, k \in Keys : (cst[m][k].on /\ ~Expired(cst[m][k])) \/ (due[m][k] > 0 /\ due[m][k] < Inf)
+    /\ \/ \E m \in Nodes, k \in Keys : (cst[m][k].on /\ ~Expired(cst[m][k])) \/ (due[m][k] > 0 /\ due[m][k] < Inf)
+       \/ \E m \in Nodes, d \in DidKeys : store[m][d].set /\ store[m][d].rem > -1 /\ store[m][d].rem < Inf
     /\ cst' = [m \in Nodes |-> [k \in Keys |-> [cst[m][k] EXCEPT !.rem = Dec(@), !.prem = Dec(@)]]]
     /\ store' = [m \in Nodes |-> [d \in DidKeys |-> IF ~store[m][d].set THEN NoP ELSE [store[m][d] EXCEPT !.rem = Dec(@)]]]
     /\ due' = [m \in Nodes |-> [k \in Keys |-> IF due[m][k] > 0 /\ due[m][k] < Inf THEN due[m][k] - 1 ELSE due[m][k]]]
@@ -203,6 +209,7 @@ Eligible(m) == {k \in Keys : cst[m][k].on /\ ~Active(m, k) /\ Expired(cst[m][k])
 Tick(m) ==
     /\ Eligible(m) # {}
     /\ \A k \in Eligible(m) : call[m][k].cpc = "idle"
+    /\ WatcherPrompt => \A k \in Eligible(m) : call[m][k].w # "armed"
     /\ cst' = [cst EXCEPT ![m] = [k \in Keys |-> IF k \in Eligible(m) THEN [cst[m][k] EXCEPT !.calling = TRUE] ELSE cst[m][k]]]
     /\ call' = [call EXCEPT ![m] = [k \in Keys |-> IF k \in Eligible(m) THEN [call[m][k] EXCEPT !.cpc = "sel", !.det = FALSE, !.to = cst[m][k].to] ELSE call[m][k]]]
     /\ bad' = bad \cup (IF \E k \in Eligible(m) : due[m][k] > 0 THEN {"dial-before-deadline"} ELSE {})
@@ -283,13 +290,14 @@ DialOK(m, k) ==
 (***************************************************************************)
 (* Inbound side: handleInboundStream on node n = call[m][k].srv            *)
 (***************************************************************************)
-SrvAccept(m, k) ==
+\* a handler whose client is gone already may or may not notice it when sending the headers
+SrvAccept(m, k, r) ==
     /\ call[m][k].spc = "new"
-    /\ IF call[m][k].dead
-       THEN /\ call' = [call EXCEPT ![m][k] = Norm([call[m][k] EXCEPT !.spc = "ret", !.sst = "err"])]      \* "unable to send headers"
-            /\ Log([a |-> "SrvAccept", m |-> m, k |-> k, res |-> "dead"])
-       ELSE /\ call' = [call EXCEPT ![m][k].spc = "hdr"]
-            /\ Log([a |-> "SrvAccept", m |-> m, k |-> k, res |-> "headers"])
+    /\ r \in (IF call[m][k].dead THEN {"dead", "headers"} ELSE {"headers"})
+    /\ IF r = "dead"
+       THEN call' = [call EXCEPT ![m][k] = Norm([call[m][k] EXCEPT !.spc = "ret", !.sst = "err"])]      \* "unable to send headers"
+       ELSE call' = [call EXCEPT ![m][k].spc = "hdr"]
+    /\ Log([a |-> "SrvAccept", m |-> m, k |-> k, res |-> r])
     /\ UNCHANGED <<cst, store, conns, inc, obs, due, bad, budget, box>>
 
 SrvAdmit(m, k, ok) ==
@@ -361,7 +369,7 @@ CliHeaders(m, k) ==
        THEN LET key == PeerKey(Pid(n), None, own.addr)
                 nt == Notify(obs[m], bad, key, "connected")
             IN /\ conns' = [conns EXCEPT ![m] = Replace(m, own.id, [own EXCEPT !.pid = Pid(n), !.str = {CTag(m, k)}])]
-               /\ call' = [call EXCEPT ![m][k].cpc = "up"]
+               /\ call' = [call EXCEPT ![m][k].cpc = "up", ![m][k].w = "armed", ![m][k].wk = key]
                /\ obs' = [obs EXCEPT ![m] = nt[1]] /\ bad' = nt[2]
                /\ UNCHANGED <<cst, store, due>>
                /\ Log([a |-> "CliHeaders", m |-> m, k |-> k, res |-> "connected"])
@@ -395,25 +403,32 @@ CliAuth(m, k, ok) ==
        ELSE LET key == PeerKey(own.pid, k, own.addr)
                 nt == Notify(obs[m], bad, key, "connected")
             IN /\ conns' = [conns EXCEPT ![m] = Replace(m, own.id, [own EXCEPT !.auth = TRUE, !.str = {CTag(m, k)}])]
-               /\ call' = [call EXCEPT ![m][k].cpc = "up"]
+               /\ call' = [call EXCEPT ![m][k].cpc = "up", ![m][k].w = "armed", ![m][k].wk = key]
                /\ obs' = [obs EXCEPT ![m] = nt[1]] /\ bad' = nt[2]
                /\ UNCHANGED <<cst, store, due, budget>>
                /\ Log([a |-> "CliAuth", m |-> m, k |-> k, res |-> "connected"])
     /\ UNCHANGED <<inc, box>>
 
 \* the stream ended (status from the peer's handler, transport error, local disconnect)
-CliClose(m, k) ==
-    LET own == ConnOf(m, OutId(m, k))
-        key == PeerKey(own.pid, own.did, own.addr)
-        nt == Notify(obs[m], bad, key, "disconnected")
-        unauth == call[m][k].spc = "ret" /\ call[m][k].sst = "unauth"
-    IN
-    /\ call[m][k].cpc = "up"
-    /\ call[m][k].dead \/ call[m][k].spc = "ret" \/ own.cx
-    /\ Epilogue(m, k, IF unauth THEN BackoffOf(Bo(m, k)) ELSE ResetOf(Bo(m, k), 1), TRUE)
+Ended(m, k) == call[m][k].cpc = "up" /\ (call[m][k].dead \/ call[m][k].spc = "ret" \/ ConnOf(m, OutId(m, k)).cx)
+
+\* goroutine started by openOutboundStreams: <-clientStream.Context().Done(); notify Disconnected; connection.disconnect()
+CliGone(m, k) ==
+    LET nt == Notify(obs[m], bad, call[m][k].wk, "disconnected") IN
+    /\ call[m][k].w = "armed"
+    /\ call[m][k].cpc # "up" \/ Ended(m, k)
     /\ obs' = [obs EXCEPT ![m] = nt[1]] /\ bad' = nt[2]
+    /\ call' = [call EXCEPT ![m][k].w = "none", ![m][k].wk = NoKey]
+    /\ Log([a |-> "CliGone", m |-> m, k |-> k])
+    /\ UNCHANGED <<cst, store, conns, inc, due, budget, box>>
+
+\* connect() after waitUntilDisconnected: closeError Unauthenticated -> Backoff(), else Reset(random 1..5 s); remove
+CliClose(m, k) ==
+    LET unauth == call[m][k].spc = "ret" /\ call[m][k].sst = "unauth" IN
+    /\ Ended(m, k)
+    /\ Epilogue(m, k, IF unauth THEN BackoffOf(Bo(m, k)) ELSE ResetOf(Bo(m, k), 1), TRUE)
     /\ Log([a |-> "CliClose", m |-> m, k |-> k, res |-> (IF unauth THEN "backoff" ELSE "reset")])
-    /\ UNCHANGED <<inc, budget, box>>
+    /\ UNCHANGED <<inc, obs, bad, budget, box>>
 
 (***************************************************************************)
 (* Environment faults                                                      *)
@@ -426,11 +441,11 @@ Drop(m, k) ==
     /\ Log([a |-> "Drop", m |-> m, k |-> k])
     /\ UNCHANGED <<cst, store, conns, inc, obs, due, bad, box>>
 
-\* Stop() (connect goroutines end: an established call persists Reset(1), one that is opening its stream persists Backoff())
+\* Stop() (connect goroutines end: an established or authenticating call persists Reset(1), one waiting for headers persists Backoff())
 \* followed by a new manager on the same store; the network layer feeds the contacts again
 StopOp(m, k) ==
-    IF call[m][k].cpc = "up" THEN ResetOf(Bo(m, k), 1)
-    ELSE IF call[m][k].cpc \in {"whdr", "cauth"} THEN BackoffOf(Bo(m, k))
+    IF call[m][k].cpc \in {"up", "cauth"} THEN ResetOf(Bo(m, k), 1)        \* the stream is (or gets) registered; its context is cancelled
+    ELSE IF call[m][k].cpc = "whdr" THEN BackoffOf(Bo(m, k))              \* Header() fails with the cancelled context
     ELSE Bo(m, k)
 Restart(m) ==
     /\ budget.restart < MaxRestart
@@ -446,7 +461,7 @@ Restart(m) ==
     /\ call' = [m2 \in Nodes |-> [k \in Keys |->
                   LET cr == call[m2][k] IN
                   IF m2 = m
-                  THEN Norm([cr EXCEPT !.cpc = "idle", !.det = FALSE, !.dval = 0, !.to = None,
+                  THEN Norm([cr EXCEPT !.cpc = "idle", !.det = FALSE, !.dval = 0, !.to = None, !.w = "none", !.wk = NoKey,
                                        !.dead = IF cr.spc \in {"new", "hdr", "up"} THEN TRUE ELSE @])
                   ELSE IF cr.srv = m /\ cr.spc \in {"new", "hdr", "up"}
                   THEN Norm([cr EXCEPT !.spc = "ret", !.sst = "ok", !.dead = TRUE])
@@ -493,8 +508,8 @@ Next ==
     \/ \E m \in Nodes : Tick(m) \/ Restart(m)
     \/ \E m \in Nodes, k \in Keys :
           \/ Register(m, k) \/ DialFail(m, k) \/ DialCancel(m, k) \/ DialOK(m, k)
-          \/ SrvAccept(m, k) \/ (\E ok \in BOOLEAN : SrvAdmit(m, k, ok)) \/ SrvDown(m, k)
-          \/ CliHeaders(m, k) \/ (\E ok \in BOOLEAN : CliAuth(m, k, ok)) \/ CliClose(m, k)
+          \/ (\E r \in {"dead", "headers"} : SrvAccept(m, k, r)) \/ (\E ok \in BOOLEAN : SrvAdmit(m, k, ok)) \/ SrvDown(m, k)
+          \/ CliHeaders(m, k) \/ (\E ok \in BOOLEAN : CliAuth(m, k, ok)) \/ CliClose(m, k) \/ CliGone(m, k)
           \/ Drop(m, k)
     \/ (\E ign \in BOOLEAN : Send(ign)) \/ Take \/ Flush \/ Credit \/ CloseBox
 
@@ -502,10 +517,10 @@ Spec == Init /\ [][Next]_vars
 
 \* every goroutine of the code runs; time passes; the transport keeps granting window
 CliSide(m, k) == Register(m, k) \/ DialOK(m, k) \/ CliHeaders(m, k) \/ CliAuth(m, k, TRUE) \/ CliClose(m, k)
-SrvSide(m, k) == SrvAccept(m, k) \/ SrvAdmit(m, k, TRUE) \/ SrvDown(m, k)
+SrvSide(m, k) == (\E r \in {"dead", "headers"} : SrvAccept(m, k, r)) \/ SrvAdmit(m, k, TRUE) \/ SrvDown(m, k)
 FairSpec == /\ Spec
             /\ \A m \in Nodes : WF_vars(Tick(m))
-            /\ \A m \in Nodes, k \in Keys : WF_vars(CliSide(m, k)) /\ WF_vars(SrvSide(m, k))
+            /\ \A m \in Nodes, k \in Keys : WF_vars(CliSide(m, k)) /\ WF_vars(SrvSide(m, k)) /\ WF_vars(CliGone(m, k))
             /\ WF_vars(Advance) /\ WF_vars(Take) /\ WF_vars(Flush) /\ WF_vars(Credit)
 
 (***************************************************************************)
@@ -561,7 +576,7 @@ EventuallyConnected == \A m \in Nodes, k \in Keys : <>[](Matches(m, k) => Linked
 \* Under purely adversarial scheduling two nodes that keep dialling each other at the same moment can reject each other's
 \* connection for ever (each side answers "already connected", see MutualReject); the random reset of 1..5 s and the
 \* 1 s ticks make that a probability-zero schedule.  Assumption: eventually a handshake is not overlapped by another tick.
-Settled == \A m \in Nodes, k \in Keys : call[m][k].cpc \in {"idle", "up"}
+Settled == \A m \in Nodes, k \in Keys : call[m][k].cpc \in {"idle", "up"} /\ call[m][k].spc \in {"none", "up"} /\ ~call[m][k].dead
 IsolatedTicks == <>[][\A m \in Nodes : Tick(m) => Settled]_vars
 EventuallyConnectedIsolated == IsolatedTicks => EventuallyConnected
 OutboxDrains == <>[](box.open => (box.q = <<>> /\ box.hand = 0))
